@@ -162,18 +162,18 @@ def run_suites(ctx, oracle_fn):
         ctx.suite(name, cases=len(cases))
         for i in range(0, len(cases), 1500):
             chunk = cases[i:i + 1500]
-            evals = [evaluate(c) for c in chunk]
+            evals = []
+            for c in chunk:
+                evals.append(evaluate(c))
+                if c["nq"] <= 64:
+                    implrun.history_twin(lambda c=c: gen.build_circuit(c["nq"], c["nb"], c["specs"]), [c["pass"]], ctx.rng, 0.25)
             eqs = compare_with_model(ctx, name, chunk, evals)
-            for ev in evals[::3]:
-                # the statements of `after` were captured above; now leave history behind (see implrun.history_noise)
-                ev["after_snapshot"] = implrun.canon_post(ev["after"])
+
             for case, ev, eq in zip(chunk, evals, eqs):
                 nontrivial = any(gen.is_gate_spec(s) for s in case["specs"])
                 ctx.seen(case, nontrivial)
                 ctx.bump("dec_" + case["pass"][1])
                 ctx.bump("impl_raised" if ev["err"] else "impl_ok")
                 oracle_fn(ctx, name, case, ev, eq)
-                if "after_snapshot" in ev and ev["err"] is None and case["nq"] <= 64:
-                    implrun.history_noise(ev["circuit"], ctx.rng)
             if chunk:
                 ctx.sample({"case": chunk[0], "impl_error": evals[0]["err"], "post_len": len(evals[0]["post"])})
